@@ -76,6 +76,14 @@ type (
 	}
 )
 
+// Validate verifies that the spec defines how access tokens are checked.
+func (spec *OAuth2ValidatorSpec) Validate() error {
+	if spec.TokenIntrospect == nil && spec.JWT == nil {
+		return fmt.Errorf("one of tokenIntrospect and jwt is required")
+	}
+	return nil
+}
+
 // NewOAuth2Validator creates a new OAuth2 validator
 func NewOAuth2Validator(spec *OAuth2ValidatorSpec) *OAuth2Validator {
 	if spec.JWT != nil {
